@@ -236,6 +236,20 @@ fn close(a: &ScalarValue, b: &ScalarValue) -> bool {
 
 /// canonical form of a result (set-like lists are sorted)
 fn canon(t: &Target, v: ScalarValue) -> ScalarValue {
+    // string_agg(DISTINCT ..) without ORDER BY concatenates the distinct values in hash-set order: compare as a bag of tokens
+    if t.distinct && (t.name == "string_agg" || t.name.ends_with("listagg")) {
+        let sorted = |s: &str| {
+            let mut parts: Vec<&str> = s.split(',').collect();
+            parts.sort();
+            parts.join(",")
+        };
+        match &v {
+            ScalarValue::Utf8(Some(s)) => return ScalarValue::Utf8(Some(sorted(s))),
+            ScalarValue::LargeUtf8(Some(s)) => return ScalarValue::LargeUtf8(Some(sorted(s))),
+            ScalarValue::Utf8View(Some(s)) => return ScalarValue::Utf8View(Some(sorted(s))),
+            _ => {}
+        }
+    }
     if t.setlike {
         if let ScalarValue::List(l) = &v {
             if l.len() == 1 && !l.is_null(0) {
@@ -597,6 +611,430 @@ fn groups_law(run: &mut Run, rng: &mut Rng, t: &Target, case: u64) {
     }
 }
 
+
+/// Multi-step HISTORIES of a `GroupsAccumulator`: update_batch (null-free first, so the fast paths are entered;
+/// later with NULLs / filters / new groups that only ever receive NULL or filtered-out rows) / merge_batch of
+/// partial state / evaluate|state(`EmitTo::First(n)`, 0 < n < groups, or `All`) / more updates to surviving
+/// (renumbered: id - n) and to new groups / final evaluate(All).  Oracle: every logical group is emitted exactly
+/// once and what was emitted for it equals the scalar `Accumulator` over that group's filter-passing rows
+/// (NULL / 0 exactly when no row passed).
+enum Hist {
+    Skip,
+    Pass,
+    Fail { sig: String, detail: String },
+}
+
+fn groups_history_law(run: &mut Run, rng: &mut Rng, t: &Target, case: u64) {
+    if !t.agg.groups_accumulator_supported() {
+        return;
+    }
+    let mk = || e(t.agg.create_groups_accumulator());
+    match history_core(rng, t, &mk, true) {
+        Hist::Skip => run.count("groups-history:skipped"),
+        Hist::Pass => {
+            run.count("law:groups-history");
+            run.oracle(true, "", "");
+        }
+        Hist::Fail { sig, detail } => {
+            run.count("law:groups-history");
+            run.oracle(false, &format!("{sig} case#{case}"), &detail);
+        }
+    }
+}
+
+fn history_core(rng: &mut Rng, t: &Target, mk: &dyn Fn() -> R<Box<dyn GroupsAccumulator>>, allow_state: bool) -> Hist {
+    let lab = label(t);
+    let arity = t.types.len();
+    // logical groups in creation order; `live[i]` = logical id of the accumulator's current group i
+    let mut grows: Vec<Vec<Vec<Cell>>> = vec![]; // filter-passing rows per logical group, in arrival order
+    let mut grows_nofilter: Vec<Vec<Vec<Cell>>> = vec![];
+    let mut live: Vec<usize> = vec![];
+    let mut emitted: Vec<Vec<ScalarValue>> = vec![]; // per logical group, every value emitted for it
+    let mut log: Vec<String> = vec![];
+    let mut any_filter = false;
+    let nsteps = 3 + rng.below(6) as usize;
+    let res: R<()> = guard(|| {
+        let mut acc = mk()?;
+        let mut emits = 0;
+        let mut just_emitted = false;
+        for step in 0..nsteps {
+            let kind = if step == 0 { 0 } else { rng.below(10) };
+            match kind {
+                0..=5 => {
+                    // ---- update_batch
+                    // phase: the first two update batches are NULL-free and filter-free
+                    let after_emit = std::mem::replace(&mut just_emitted, false);
+                    let clean = !after_emit && step < 2 && rng.chance(4, 5);
+                    let m = 1 + rng.below(6) as usize;
+                    let mode = if clean { 0 } else if after_emit { 1 + rng.below(3) } else { rng.below(4) }; // 0 clean, 1 NULLs, 2 filter, 3 NULLs+filter
+                    let use_filter = mode >= 2;
+                    any_filter |= use_filter;
+                    // ghost groups: new groups whose rows are all NULL (or all filtered out) — right after an emit
+                    // they are the groups a stale "all groups seen" counter would wrongly cover
+                    let ghosts = !clean && rng.chance(if after_emit { 2 } else { 1 }, if after_emit { 3 } else { 2 });
+                    // right after an emit, hit the group that moved to index 0 with a value it has already seen
+                    let revisit: Option<Vec<Cell>> = if after_emit && !live.is_empty() && rng.chance(2, 3) { grows[live[0]].first().cloned() } else { None };
+                    let mut rows: Vec<Vec<Cell>> = vec![];
+                    let mut gidx: Vec<usize> = vec![];
+                    let mut filt: Vec<Option<bool>> = vec![];
+                    let mut new_in_batch: Vec<usize> = vec![];
+                    for ri in 0..m {
+                        let pinned = ri == 0 && revisit.is_some();
+                        let new_group = !pinned && (live.is_empty() || rng.chance(1, 3));
+                        let gi = if new_group {
+                            live.push(grows.len());
+                            grows.push(vec![]);
+                            grows_nofilter.push(vec![]);
+                            emitted.push(vec![]);
+                            new_in_batch.push(live.len() - 1);
+                            live.len() - 1
+                        } else if pinned {
+                            0
+                        } else {
+                            rng.below(live.len() as u64) as usize
+                        };
+                        let is_ghost = ghosts && new_in_batch.contains(&gi);
+                        let mut r: Vec<Cell> = if pinned { revisit.clone().unwrap() } else { (0..arity).map(|_| gen_cell(rng, t.small)).collect() };
+                        if clean || mode == 2 {
+                            for c in r.iter_mut() {
+                                if c.is_none() {
+                                    *c = Some(1);
+                                }
+                            }
+                        }
+                        let mut f = if use_filter { if pinned { Some(true) } else if rng.chance(1, 8) { None } else { Some(rng.chance(2, 3)) } } else { Some(true) };
+                        if is_ghost {
+                            if use_filter {
+                                f = Some(false);
+                            } else {
+                                r[0] = None;
+                            }
+                        }
+                        rows.push(r);
+                        gidx.push(gi);
+                        filt.push(f);
+                    }
+                    let vals = arrays(t, &rows);
+                    let fa: Option<BooleanArray> = if use_filter { Some(filt.iter().cloned().collect()) } else { None };
+                    e(acc.update_batch(&vals, &gidx, fa.as_ref(), live.len()))?;
+                    for i in 0..m {
+                        grows_nofilter[live[gidx[i]]].push(rows[i].clone());
+                        if filt[i] == Some(true) {
+                            grows[live[gidx[i]]].push(rows[i].clone());
+                        }
+                    }
+                    log.push(format!("update(rows={rows:?} groups={gidx:?} filter={:?} total={})", if use_filter { Some(&filt) } else { None }, live.len()));
+                }
+                6 => {
+                    // ---- merge_batch of partial state produced by a second accumulator (not for order-sensitive functions)
+                    if t.ordered {
+                        continue;
+                    }
+                    let m = 1 + rng.below(4) as usize;
+                    if !allow_state {
+                        continue;
+                    }
+                    let mut side = mk()?;
+                    let mut side_groups: Vec<usize> = vec![]; // side index -> main index
+                    let mut rows: Vec<Vec<Cell>> = vec![];
+                    let mut sidx: Vec<usize> = vec![];
+                    for _ in 0..m {
+                        let new_group = live.is_empty() || rng.chance(1, 3);
+                        let gi = if new_group {
+                            live.push(grows.len());
+                            grows.push(vec![]);
+                            grows_nofilter.push(vec![]);
+                            emitted.push(vec![]);
+                            live.len() - 1
+                        } else {
+                            rng.below(live.len() as u64) as usize
+                        };
+                        let si = match side_groups.iter().position(|x| *x == gi) {
+                            Some(p) => p,
+                            None => {
+                                side_groups.push(gi);
+                                side_groups.len() - 1
+                            }
+                        };
+                        let r: Vec<Cell> = (0..arity).map(|_| gen_cell(rng, t.small)).collect();
+                        rows.push(r);
+                        sidx.push(si);
+                    }
+                    e(side.update_batch(&arrays(t, &rows), &sidx, None, side_groups.len()))?;
+                    let st = e(side.state(EmitTo::All))?;
+                    e(acc.merge_batch(&st, &side_groups, live.len()))?;
+                    // the partial state of side group j summarises its rows in order
+                    for (j, gi) in side_groups.iter().enumerate() {
+                        for i in 0..m {
+                            if sidx[i] == j {
+                                grows[live[*gi]].push(rows[i].clone());
+                                grows_nofilter[live[*gi]].push(rows[i].clone());
+                            }
+                        }
+                    }
+                    log.push(format!("merge(rows={rows:?} side_groups={sidx:?} -> main {side_groups:?} total={})", live.len()));
+                }
+                _ => {
+                    // ---- emit a prefix (or everything) and continue
+                    if live.is_empty() || emits >= 3 {
+                        continue;
+                    }
+                    emits += 1;
+                    let n = if live.len() >= 2 && rng.chance(4, 5) { 1 + rng.below(live.len() as u64 - 1) as usize } else { live.len() };
+                    let emit = if n == live.len() && rng.chance(1, 2) { EmitTo::All } else { EmitTo::First(n) };
+                    let via_state = allow_state && !t.ordered && rng.chance(1, 3);
+                    let vals: Vec<ScalarValue> = if via_state {
+                        // partial state of the emitted groups, finalised by a second (final-stage) GroupsAccumulator
+                        let st = e(acc.state(emit))?;
+                        let k = st[0].len();
+                        let mut fin = mk()?;
+                        e(fin.merge_batch(&st, &(0..k).collect::<Vec<_>>(), k))?;
+                        let arr = e(fin.evaluate(EmitTo::All))?;
+                        (0..arr.len()).map(|r| Ok(canon(t, e(ScalarValue::try_from_array(&arr, r))?))).collect::<R<Vec<_>>>()?
+                    } else {
+                        let arr = e(acc.evaluate(emit))?;
+                        (0..arr.len()).map(|r| Ok(canon(t, e(ScalarValue::try_from_array(&arr, r))?))).collect::<R<Vec<_>>>()?
+                    };
+                    if vals.len() != n {
+                        return Err(format!("emit {emit:?} returned {} rows for {n} groups; history {log:?}", vals.len()));
+                    }
+                    for (i, v) in vals.into_iter().enumerate() {
+                        emitted[live[i]].push(v);
+                    }
+                    live.drain(..n);
+                    just_emitted = true;
+                    log.push(format!("{}({emit:?})", if via_state { "state" } else { "evaluate" }));
+                }
+            }
+        }
+        // ---- final evaluate(All)
+        let arr = e(acc.evaluate(EmitTo::All))?;
+        if arr.len() != live.len() {
+            return Err(format!("final evaluate(All) returned {} rows for {} live groups; history {log:?}", arr.len(), live.len()));
+        }
+        for i in 0..arr.len() {
+            emitted[live[i]].push(canon(t, e(ScalarValue::try_from_array(&arr, i))?));
+        }
+        log.push("evaluate(All)".into());
+        Ok(())
+    });
+    let sig_base = format!("groups-history {lab}");
+    if let Err(m) = res {
+        if m.contains("not implemented") || m.contains("NotImplemented") {
+            return Hist::Skip;
+        }
+        return Hist::Fail { sig: format!("{sig_base} error"), detail: format!("{m} | history {log:?}") };
+    }
+    // scalar oracle per logical group
+    let mut bad: Vec<String> = vec![];
+    let mut all_match_nofilter = any_filter;
+    for g in 0..grows.len() {
+        let want = guard(|| eval_whole(t, &grows[g]));
+        let Ok(want) = want else { return Hist::Skip };
+        let once = emitted[g].len() == 1;
+        let ok = once && close(&emitted[g][0], &want);
+        if !ok {
+            bad.push(format!("group {g}: emitted {:?}, scalar over its {} passing rows {:?} = {want:?}", emitted[g], grows[g].len(), grows[g]));
+            if any_filter {
+                let nf = guard(|| eval_whole(t, &grows_nofilter[g]));
+                if !(once && matches!(&nf, Ok(v) if close(&emitted[g][0], v))) {
+                    all_match_nofilter = false;
+                }
+            }
+        }
+    }
+    let diag = if !bad.is_empty() && all_match_nofilter { " diag=filter-ignored" } else { "" };
+    if bad.is_empty() {
+        Hist::Pass
+    } else {
+        Hist::Fail { sig: format!("{sig_base} filter={any_filter}{diag}"), detail: format!("{} | history {log:?}", bad.join("; ")) }
+    }
+}
+
+// ---------------------------------------------------------------------------------------- self-test
+// Harness-local re-implementations of two vectorised accumulators, each with a switchable defect of the
+// `EmitTo::First(n)` class.  Every run checks that the history law (a) accepts the faithful versions and
+// (b) rejects the defective ones — i.e. that the generated histories reach those code paths.
+
+enum Seen {
+    All(usize),
+    Some(Vec<bool>),
+}
+
+/// SUM(Int64) with the `NullState` fast path ("all groups seen": a counter instead of a bitmap)
+struct MockSum {
+    sums: Vec<i64>,
+    seen: Seen,
+    /// defect: `build(First(n))` does not subtract the emitted prefix from the fast-path counter
+    bug: bool,
+}
+
+impl MockSum {
+    fn bits(&mut self, total: usize) -> &mut Vec<bool> {
+        if let Seen::All(n) = self.seen {
+            let mut v = vec![true; n];
+            v.resize(total.max(n), false);
+            self.seen = Seen::Some(v);
+        }
+        match &mut self.seen {
+            Seen::Some(v) => {
+                if v.len() < total {
+                    v.resize(total, false);
+                }
+                v
+            }
+            _ => unreachable!(),
+        }
+    }
+    fn build(&mut self, emit: EmitTo, len: usize) -> Vec<bool> {
+        match emit {
+            EmitTo::All => match std::mem::replace(&mut self.seen, Seen::All(0)) {
+                Seen::All(_) => vec![true; len],
+                Seen::Some(v) => v,
+            },
+            EmitTo::First(n) => match &mut self.seen {
+                Seen::All(k) => {
+                    if !self.bug {
+                        *k = k.saturating_sub(n);
+                    }
+                    vec![true; n]
+                }
+                Seen::Some(v) => {
+                    let rest = v.split_off(n.min(v.len()));
+                    std::mem::replace(v, rest)
+                }
+            },
+        }
+    }
+}
+
+impl GroupsAccumulator for MockSum {
+    fn update_batch(&mut self, values: &[ArrayRef], group_indices: &[usize], opt_filter: Option<&BooleanArray>, total_num_groups: usize) -> datafusion_common::Result<()> {
+        let v = values[0].as_any().downcast_ref::<Int64Array>().unwrap();
+        self.sums.resize(total_num_groups, 0);
+        if let (Seen::All(n), None, 0) = (&mut self.seen, opt_filter, v.null_count()) {
+            for (i, g) in group_indices.iter().enumerate() {
+                self.sums[*g] = self.sums[*g].wrapping_add(v.value(i));
+            }
+            *n = total_num_groups;
+            return Ok(());
+        }
+        let pass: Vec<bool> = (0..v.len()).map(|i| !v.is_null(i) && opt_filter.map(|f| f.is_valid(i) && f.value(i)).unwrap_or(true)).collect();
+        let vals: Vec<i64> = (0..v.len()).map(|i| if v.is_null(i) { 0 } else { v.value(i) }).collect();
+        let bits = self.bits(total_num_groups);
+        for (i, g) in group_indices.iter().enumerate() {
+            if pass[i] {
+                bits[*g] = true;
+            }
+        }
+        for (i, g) in group_indices.iter().enumerate() {
+            if pass[i] {
+                self.sums[*g] = self.sums[*g].wrapping_add(vals[i]);
+            }
+        }
+        Ok(())
+    }
+    fn evaluate(&mut self, emit_to: EmitTo) -> datafusion_common::Result<ArrayRef> {
+        let sums = emit_to.take_needed(&mut self.sums);
+        let valid = self.build(emit_to, sums.len());
+        Ok(Arc::new(sums.iter().enumerate().map(|(i, s)| if valid.get(i).copied().unwrap_or(false) { Some(*s) } else { None }).collect::<Int64Array>()))
+    }
+    fn state(&mut self, _emit_to: EmitTo) -> datafusion_common::Result<Vec<ArrayRef>> {
+        datafusion_common::not_impl_err!("mock")
+    }
+    fn merge_batch(&mut self, _values: &[ArrayRef], _group_indices: &[usize], _total_num_groups: usize) -> datafusion_common::Result<()> {
+        datafusion_common::not_impl_err!("mock")
+    }
+    fn convert_to_state(&self, _values: &[ArrayRef], _opt_filter: Option<&BooleanArray>) -> datafusion_common::Result<Vec<ArrayRef>> {
+        datafusion_common::not_impl_err!("mock")
+    }
+    fn size(&self) -> usize {
+        0
+    }
+}
+
+/// COUNT(DISTINCT Int64) as `PrimitiveDistinctCountGroupsAccumulator`: a set of (group, value) pairs and a count per group
+struct MockDistinctCount {
+    seen: std::collections::HashSet<(usize, i64)>,
+    counts: Vec<i64>,
+    /// defect: after `First(n)` the retain test is `group_idx > n` instead of `>= n`
+    bug: bool,
+}
+
+impl GroupsAccumulator for MockDistinctCount {
+    fn update_batch(&mut self, values: &[ArrayRef], group_indices: &[usize], opt_filter: Option<&BooleanArray>, total_num_groups: usize) -> datafusion_common::Result<()> {
+        let v = values[0].as_any().downcast_ref::<Int64Array>().unwrap();
+        self.counts.resize(total_num_groups, 0);
+        for (i, g) in group_indices.iter().enumerate() {
+            if v.is_null(i) || !opt_filter.map(|f| f.is_valid(i) && f.value(i)).unwrap_or(true) {
+                continue;
+            }
+            if self.seen.insert((*g, v.value(i))) {
+                self.counts[*g] += 1;
+            }
+        }
+        Ok(())
+    }
+    fn evaluate(&mut self, emit_to: EmitTo) -> datafusion_common::Result<ArrayRef> {
+        let counts = emit_to.take_needed(&mut self.counts);
+        match emit_to {
+            EmitTo::All => self.seen.clear(),
+            EmitTo::First(n) => {
+                let bug = self.bug;
+                self.seen = self.seen.drain().filter(|(g, _)| if bug { *g > n } else { *g >= n }).map(|(g, x)| (g - n, x)).collect();
+            }
+        }
+        Ok(Arc::new(Int64Array::from(counts)))
+    }
+    fn state(&mut self, _emit_to: EmitTo) -> datafusion_common::Result<Vec<ArrayRef>> {
+        datafusion_common::not_impl_err!("mock")
+    }
+    fn merge_batch(&mut self, _values: &[ArrayRef], _group_indices: &[usize], _total_num_groups: usize) -> datafusion_common::Result<()> {
+        datafusion_common::not_impl_err!("mock")
+    }
+    fn convert_to_state(&self, _values: &[ArrayRef], _opt_filter: Option<&BooleanArray>) -> datafusion_common::Result<Vec<ArrayRef>> {
+        datafusion_common::not_impl_err!("mock")
+    }
+    fn size(&self) -> usize {
+        0
+    }
+}
+
+fn history_selftest(run: &mut Run, rng: &mut Rng, targets: &[Target]) {
+    let n = run.budget(300, 2_000);
+    let find = |name: &str, distinct: bool| targets.iter().find(|t| t.name == name && t.distinct == distinct && t.types == vec![DataType::Int64]);
+    let mut go = |what: &str, t: &Target, mk: &dyn Fn() -> R<Box<dyn GroupsAccumulator>>, expect_fail: bool, run: &mut Run, rng: &mut Rng| {
+        let (mut pass, mut fail, mut first) = (0u64, 0u64, String::new());
+        for _ in 0..n {
+            match history_core(rng, t, mk, false) {
+                Hist::Pass => pass += 1,
+                Hist::Fail { detail, .. } => {
+                    fail += 1;
+                    if first.is_empty() {
+                        first = detail;
+                    }
+                }
+                Hist::Skip => {}
+            }
+        }
+        run.add(&format!("selftest:{what}:rejected"), fail);
+        if expect_fail {
+            run.oracle(fail >= 3, &format!("selftest history-sensitivity {what}"), &format!("only {fail} of {n} generated histories expose the seeded `{what}` defect of the harness-local accumulator"));
+        } else {
+            run.oracle(fail == 0, &format!("selftest history-soundness {what}"), &format!("{fail} histories reject the FAITHFUL harness-local accumulator; first: {first}"));
+        }
+        let _ = pass;
+    };
+    if let Some(t) = find("sum", false) {
+        go("mock-sum-faithful", t, &|| Ok(Box::new(MockSum { sums: vec![], seen: Seen::All(0), bug: false }) as Box<dyn GroupsAccumulator>), false, run, rng);
+        go("nullstate-first-n-counter-not-decremented", t, &|| Ok(Box::new(MockSum { sums: vec![], seen: Seen::All(0), bug: true }) as Box<dyn GroupsAccumulator>), true, run, rng);
+    }
+    if let Some(t) = find("count", true) {
+        go("mock-distinct-count-faithful", t, &|| Ok(Box::new(MockDistinctCount { seen: Default::default(), counts: vec![], bug: false }) as Box<dyn GroupsAccumulator>), false, run, rng);
+        go("distinct-count-first-n-retain-off-by-one", t, &|| Ok(Box::new(MockDistinctCount { seen: Default::default(), counts: vec![], bug: true }) as Box<dyn GroupsAccumulator>), true, run, rng);
+    }
+}
+
 pub fn run(run: &mut Run, args: &Args) {
     hutil::quiet_panics();
     let mut rng = Rng::new(args.seed);
@@ -610,6 +1048,10 @@ pub fn run(run: &mut Run, args: &Args) {
             scalar_laws(run, &mut rng, t, c);
             retract_law(run, &mut rng, t, c);
             groups_law(run, &mut rng, t, c);
+            for h in 0..4 {
+                groups_history_law(run, &mut rng, t, 4 * c + h);
+            }
         }
     }
+    history_selftest(run, &mut rng, &targets);
 }
